@@ -4,6 +4,7 @@ import (
 	"fmt"
 	"sort"
 	"testing"
+	"time"
 
 	"verif/internal/explore"
 	"verif/internal/vsync"
@@ -153,4 +154,34 @@ func contains(s, sub string) bool {
 		}
 	}
 	return false
+}
+
+// A thread that is torn down (deadlock) while its deferred calls use scheduler operations must not hang the teardown.
+func TestAbortWithDeferredOps(t *testing.T) {
+	done := make(chan vsync.Result, 1)
+	go func() {
+		done <- vsync.Run(func(n, cost int) int { return 0 }, 10000, func() {
+			var mu vsync.Mutex
+			c := vsync.NewChan[int](0)
+			var wg vsync.WaitGroup
+			for i := 0; i < 3; i++ {
+				wg.Add(1)
+				vsync.Go(func() {
+					defer wg.Done()
+					defer func() { mu.Lock(); mu.Unlock() }()
+					c.Send(1) // nobody receives: deadlock
+				})
+			}
+			defer func() { mu.Lock(); mu.Unlock() }()
+			wg.Wait()
+		})
+	}()
+	select {
+	case r := <-done:
+		if !r.Deadlock {
+			t.Fatalf("expected deadlock, got %+v", r)
+		}
+	case <-time.After(10 * time.Second):
+		t.Fatal("teardown hangs")
+	}
 }
